@@ -176,7 +176,11 @@ func main() {
 				os.Exit(2)
 			}
 			i++
-			transMapTrace(2000000+i, *seed*1000003+int64(i), t, enc)
+			if *profile == "follow" {
+				transFollowTrace(3000000+i, *seed*1000003+int64(i), t, enc)
+			} else {
+				transMapTrace(2000000+i, *seed*1000003+int64(i), t, enc)
+			}
 		}
 	case "path":
 		enc, done := openOut(*out)
